@@ -96,7 +96,7 @@ impl Prop for LocalWins {
         900
     }
     fn cases(&self, tier: Tier) -> u64 {
-        tier.pick(80_000, 3_000_000)
+        tier.pick(80_000, 12_000_000)
     }
     fn generate(&self, g: &mut Gen) -> Case {
         // apexes: nested authoritative zones, the root zone (non-authoritative), sometimes a non-root non-authoritative zone
